@@ -113,10 +113,39 @@ def law_monitors(run):
     run.notes['law_monitor_runs_on_generic_floats'] = n_runs
 
 
+def half_turn_boxplus(run):
+    """Boundary of the boxplus domain on generic floats: increments whose rotational part has norm 1 (up to rounding: the sum of squares may be
+    1 +- ulp while the norm is exactly 1.0).  p [+] delta is p (+) the pose with translation dt and quaternion (dr, sqrt(1 - |dr|^2)) = (dr, 0)."""
+    import random
+    from graphslam.pose.se3 import PoseSE3
+    rnd = random.Random(run.seed + 913)
+    for j in range(300):
+        u = np.array([rnd.gauss(0, 1) for _ in range(3)])
+        u = u / np.linalg.norm(u)
+        if j % 3 == 0:
+            u = np.array([[0.6, 0.8, 0.0], [0.0, 0.6, -0.8], [2.0 / 3.0, -1.0 / 3.0, 2.0 / 3.0], [-1.0, 0.0, 0.0], [0.28, 0.0, 0.96]][(j // 3) % 5])
+        if float(np.linalg.norm(u)) > 1.0:
+            continue          # (an ulp OUTSIDE the domain: the library documents a fallback there; no claim)
+        q = np.array([rnd.gauss(0, 1) for _ in range(4)])
+        p = PoseSE3([rnd.uniform(-5, 5) for _ in range(3)], q / np.linalg.norm(q))
+        dt = np.array([rnd.uniform(-2, 2) for _ in range(3)])
+        run.count(key=('half-turn-boxplus', j), nontrivial=True)
+        try:
+            got = np.asarray(p + np.concatenate([dt, u]), dtype=float)
+            want = np.asarray(p + PoseSE3(dt, np.concatenate([u, [0.0]])), dtype=float)
+        except Exception as ex:  # noqa
+            run.violation(dict(k='SE3', op='a boxplus d', half_turn=True), 'exception %r for the increment %r' % (ex, u.tolist()), dict(u=u.tolist()))
+            continue
+        dev = min(float(np.max(np.abs(got - want))), float(np.max(np.abs(np.concatenate([got[:3] - want[:3], got[3:] + want[3:]])))))
+        if not np.all(np.isfinite(got)) or dev > 1e-7:          # (sqrt(1 - |dr|^2) is ill-conditioned at 1: |dr| = 1 - 1e-16 gives a scalar part of 1.5e-8)
+            run.violation(dict(k='SE3', op='a boxplus d', half_turn=True), 'p [+] delta with |delta_rot| = 1: got %r, p (+) pose(delta) is %r' % (got.tolist(), want.tolist()), dict(u=u.tolist(), p=np.asarray(p).tolist()))
+
+
 def check(run, cases=None):
     if cases is None:
         group_theorem(run)
         law_monitors(run)
+        half_turn_boxplus(run)
     cases = cases if cases is not None else PC.gen_cases(run.tier, run.seed)
     old = EC.headroom_class
     EC.headroom_class = PC.headroom_class
